@@ -1128,6 +1128,27 @@ MAKE = {
 }
 
 
+def make_pool(kind, v):
+    """Argument objects a user keeps and hands to SEVERAL constructions (operation "A")."""
+    if kind in ("EmulationConfig", "QutipConfig"):
+        args = dict(observables=[BitStrings(evaluation_times=[0.5, 1.0], num_shots=100),
+                                 Occupation(tag_suffix="a")][:v],
+                    custom_list=[1, 2], custom_dict={"nsteps": 1000, "tolerances": [1e-6, 1e-8]},
+                    noise_model=NoiseModel(p_false_pos=0.125, dephasing_rate=0.25))
+        if kind == "EmulationConfig" and v == 2:
+            args["interaction_matrix"] = np.array([[0.0, 1.0, 2.0], [1.0, 0.0, 3.0], [2.0, 3.0, 0.0]])
+        return args
+    # VirtualDevice
+    return dict(name=f"pooled-{v}", dimensions=3, rydberg_level=60,
+                channel_objects=[Rydberg.Global(None, None), Raman.Local(None, None)][:v],
+                dmm_objects=[DMM()])
+
+
+def make_from_pool(kind, args):
+    cls = {"EmulationConfig": EmulationConfig, "QutipConfig": QutipConfig, "VirtualDevice": VirtualDevice}[kind]
+    return cls(**args)
+
+
 def _ser(kind, o):
     if kind in ("StateRepr", "QutipState", "OperatorRepr", "QutipOperator", "DetuningMap"):
         return json.dumps(o, cls=AbstractReprEncoder)
@@ -1148,26 +1169,46 @@ def _deser(kind, doc):
 
 
 def _mutate(kind, o, m):
+    """Change the object through ITSELF (its mutator, or the mutable values it hands out)."""
     if kind == "Results":
         o._store_raw(uuid=uuidlib.UUID(int=77), tag="late", time=(m + 1) / 4, value=m + 0.5)
-    else:
+    elif kind == "VirtualDevice":
         o.change_rydberg_level(61 + m)
+    else:                                   # configurations
+        first = o.observables[0]
+        first.evaluation_times = [1.0] if m == 0 else [0.25, 1.0]
+        if hasattr(first, "num_shots"):
+            first.num_shots = 5 + m
+        opts = o._backend_options
+        if "custom_list" in opts:
+            o.custom_list.append(10 + m)
+        if "custom_dict" in opts:
+            o.custom_dict["nsteps"] = 5000 + m
+            o.custom_dict["tolerances"].append(1e-10)
 
 
 def alias_history(out, h):
-    live = []           # [kind, object, snapshot, mutations]
+    live = []           # [kind, object, snapshot, mutations, built from pooled arguments]
+    pool = {}
     for step, (op, x, y) in enumerate(h):
         target = None
         try:
             if op == "C":
                 kind = x
                 obj = MAKE[x](y)
-                live.append([x, obj, None, 0])
+                live.append([x, obj, None, 0, False])
+                target = len(live) - 1
+            elif op == "A":
+                kind = x
+                if (x, y) not in pool:
+                    pool[(x, y)] = make_pool(x, y)
+                obj = make_from_pool(x, pool[(x, y)])
+                live.append([x, obj, None, 0, True])
                 target = len(live) - 1
             elif op == "D":
                 kind = live[x - 1][0]
                 obj = _deser(kind, _ser(kind, live[x - 1][1]))
-                live.append([kind, obj, None, live[x - 1][3]])
+                live.append([kind, obj, None, live[x - 1][3], False])
                 target = len(live) - 1
             elif op == "S":
                 kind = live[x - 1][0]
@@ -1196,9 +1237,12 @@ def alias_history(out, h):
                             "before": short(was), "after": short(now)})
                 ent[2] = snap
         # identities: two live observables never share a uuid; a decoded object is a new object
+        # (configurations built from the SAME observable instances legitimately carry its uuid)
         if op in ("C", "D") and kind in ("Observable", "EmulationConfig", "QutipConfig"):
             ids = []
             for ent in live:
+                if ent[4]:
+                    continue
                 if ent[0] == "Observable":
                     ids.append(ent[1].uuid)
                 elif ent[0] in ("EmulationConfig", "QutipConfig"):
@@ -1383,6 +1427,20 @@ def run(tier):
     per_config.append({"config": f"aliasing-depth{depth}", "tlc_distinct": res.distinct,
                        "tlc_s": round(res.wall, 1), "behaviours": len(hists),
                        "assertions": agg["tests"] - before, "wall_s": round(time.time() - t0, 1)})
+    if quick:       # depth 3 over the kinds that can be changed through themselves / built from shared arguments
+        t0 = time.time()
+        res, pts = enumerate_points("C17", "aliasing-mutable", "Aliasing",
+                                    {"Use": '{"EmulationConfig", "QutipConfig", "Results", "VirtualDevice", "StateRepr"}',
+                                     "Depth": "3", "MaxMut": "2"}, AL_INV)
+        hists = [p["h"] for p in pts]
+        before = agg["tests"]
+        run_pool(alias_job, chunks(hists, 100), V, agg)
+        tot_states += res.distinct
+        tot_trans += res.generated
+        tot_points += len(hists)
+        per_config.append({"config": "aliasing-mutable-kinds-depth3", "tlc_distinct": res.distinct,
+                           "tlc_s": round(res.wall, 1), "behaviours": len(hists),
+                           "assertions": agg["tests"] - before, "wall_s": round(time.time() - t0, 1)})
     t0 = time.time()
     wdepth, wnum = (5, 40) if quick else (7, 250)
     res, hists = simulate_histories("aliasing-sim", "DOMAIN KT", wdepth, wnum, sd)
@@ -1431,7 +1489,7 @@ def run(tier):
                 "given as 0.0 (Zeroable only)} to the 14 NoiseModel parameters, and every subset of "
                 "noise types of a SimConfig x at most MaxSet parameters away from the legacy default; "
                 "Aliasing: every behaviour of Construct/Decode/Serialise/Mutate of the given depth "
-                "over 16 kinds (36 parameter sets) plus seeded TLC -simulate walks",
+                "over 16 kinds (36 parameter sets; fresh or shared argument objects) plus seeded TLC -simulate walks",
     }
     return V.finish(cov, assumptions=[
         "payload floats are exactly representable or compared by value after Python's exact "
